@@ -8,6 +8,9 @@ for l in open('/verif/properties.jsonl'):
     if p['id'] == pid:
         break
 wt = f"/tmp/seed/{pid}{variant}"
+import os
+used = sorted(d[len(pid)+1:].replace('-', ' ') for d in os.listdir('/verif/seeded') if d.startswith(pid + '-'))
+used_txt = ("Earlier rounds already produced changes built on these ideas - do NOT reuse them or close variants; pick a different mechanism, file or input family: " + "; ".join(used) + ".") if used else ""
 print(f"""You are helping test a verification tool-chain for the open-source Lua linter `selene` (Rust; crates `selene-lib` and `selene`).
 You have your own scratch git worktree of the repository at {wt} (detached HEAD). Work ONLY inside {wt} and write your deliverables to {wt}-out/ . Do not read or write /repo or /verif. There is no network: always pass --offline to cargo and set CARGO_NET_OFFLINE=true; use CARGO_TARGET_DIR={wt}/target so build output stays inside the worktree. Several source files use CRLF line endings - preserve them (edit with a tool that keeps \\r\\n, check `git diff --stat` shows only the lines you meant to change).
 
@@ -20,7 +23,7 @@ Here is a semantic property of selene that is supposed to hold:
 
 Your task: produce a realistic change to selene's source (the kind of bug a refactoring, an optimisation or a well-meant feature tweak could introduce) that BREAKS this property while the code still compiles and the existing test suite still passes unchanged:
     cd {wt} && CARGO_NET_OFFLINE=true CARGO_TARGET_DIR={wt}/target cargo test --workspace --no-fail-fast --offline
-(125 tests pass on the unmodified tree). The change must need something specific to manifest - an unusual input, a multi-step sequence, a particular configuration, a particular interleaving, or two cooperating sites that each look fine alone - not something ordinary use would expose at once, and not something the golden tests catch. Keep the patch small (a few lines to a few dozen). Do not take the first idea that comes to mind: list three candidate changes in different files or mechanisms, then pick the one that is hardest to notice. Do not touch tests, test fixtures, docs, or anything named verif_hooks / verif_trace / `verif-hooks`.
+(125 tests pass on the unmodified tree). The change must need something specific to manifest - an unusual input, a multi-step sequence, a particular configuration, a particular interleaving, or two cooperating sites that each look fine alone - not something ordinary use would expose at once, and not something the golden tests catch. Keep the patch small (a few lines to a few dozen). {used_txt} Do not take the first idea that comes to mind: list three candidate changes in different files or mechanisms, then pick the one that is hardest to notice. Do not touch tests, test fixtures, docs, or anything named verif_hooks / verif_trace / `verif-hooks`.
 
 Also write a demonstration: a small shell script `demo.sh` (plus any input files it needs, all inside {wt}-out/) that takes the path of a selene checkout as $1, builds what it needs there (cargo build --workspace --offline with CARGO_TARGET_DIR=$1/target; or a tiny Rust test/program using selene-lib by path), runs selene / the library on a concrete input, and exits 0 when the property holds on that input and non-zero when it is violated. It must FAIL with your change applied and PASS on the unmodified tree - verify both yourself (use `git stash` / `git apply -R` in the worktree to flip).
 
